@@ -9,7 +9,7 @@ use alloc::collections::LinkedList;
 //@ bounds=request: any first byte / code / id, token of 2 symbolic bytes; error code: None or any status a code byte names or UnKnown; message 0..3 ASCII bytes; response pre-state: optionally an existing Content-Format value (2 symbolic bytes) and a payload byte
 //@ what=true iff a response exists and the error has a code; then code, payload and content format are the error's (text/plain) and id, token, type, version are untouched; otherwise nothing changes
 #[kani::proof]
-#[kani::unwind(10)]
+#[kani::unwind(5)]
 #[kani::stub(core::fmt::write, crate::verif_harness::stub_write)]
 fn c07_apply_error() {
     // request: any first byte / code / id, two symbolic token bytes (the length-generic token copy is c07_new_response's job)
